@@ -434,6 +434,8 @@ class Ctx:
         replay_paths = []
         if viol:
             rdir = os.path.join(ROOT, 'replays', self.id)
+            if os.environ.get('VERIF_REPO', '/repo') != '/repo':
+                rdir = os.path.join(ROOT, 'build', 'replays-alt', self.id)
             os.makedirs(rdir, exist_ok=True)
             seen = set()
             for d in viol:
@@ -476,9 +478,13 @@ class Ctx:
         if self.infra:
             ev['coverage']['infra_problems'] = self.infra[:20]
         valid_for_level = self.states >= 1 and self.transitions >= 1 and len(ev['coverage']['samples']) >= 1
-        os.makedirs(os.path.join(ROOT, 'evidence'), exist_ok=True)
+        # runs against a scratch checkout (VERIF_REPO, used only to try seeded changes) never touch the committed evidence
+        evdir = os.path.join(ROOT, 'evidence')
+        if os.environ.get('VERIF_REPO', '/repo') != '/repo':
+            evdir = os.path.join(ROOT, 'build', 'evidence-alt')
+        os.makedirs(evdir, exist_ok=True)
         if code != 2 or valid_for_level:
-            with open(os.path.join(ROOT, 'evidence', f'{self.id}.json'), 'w') as f:
+            with open(os.path.join(evdir, f'{self.id}.json'), 'w') as f:
                 json.dump(ev, f, indent=1, default=str)
         for ln in lines:
             print(ln, flush=True)
